@@ -6,6 +6,7 @@ from ..r_protocol import run_protocol
 from ..r_construct import (rule_keep_lists, rule_literal_keys, rule_construction, rule_transaction, rule_ownership,
                            rule_symmetry, rule_changed_set)
 from ..r_alias import rule_no_mutation_of_cached, rule_no_stale_alias, rule_merge_fresh, rule_row_order
+from ..r_keys import rule_fresh_keys
 
 LEVEL = 'other'
 
@@ -33,3 +34,4 @@ def run(ck, repo):
     rule_no_stale_alias(ck, repo, 'A2-no-stale-alias')
     rule_merge_fresh(ck, repo, 'A3-merge-fresh-copy')
     rule_row_order(ck, repo, 'A4-row-order')
+    rule_fresh_keys(ck, repo, 'B8-fresh-atom-numbers')
